@@ -122,9 +122,15 @@ const (
 	kExit
 	kPanicExit
 	kStepNote
+	kSend
+	kSendWait
+	kRecv
+	kClose
+	kChanLen
+	kChanNil
 )
 
-var gateNames = [...]string{"draw", "log", "count", "probe", "go", "yield", "add", "wait", "lock", "unlock", "rlock", "runlock", "trylock", "exit", "panic", "note"}
+var gateNames = [...]string{"draw", "log", "count", "probe", "go", "yield", "add", "wait", "lock", "unlock", "rlock", "runlock", "trylock", "exit", "panic", "note", "send", "send-done", "recv", "close", "chan-len", "nil-chan"}
 
 // GateName returns the readable name of a gate kind in a trace.
 func GateName(k uint8) string {
@@ -159,6 +165,10 @@ const (
 	gWaitLock
 	gWaitRLock
 	gRunning
+	gWaitSend
+	gWaitTaken
+	gWaitRecv
+	gWaitForever
 )
 
 type gor struct {
@@ -168,6 +178,15 @@ type gor struct {
 	obj   unsafe.Pointer
 	prio  int
 	begun bool
+	seq   int // unbuffered send: index of this goroutine's deposit
+}
+
+type chanState struct {
+	cap    int
+	n      int // values deposited and not yet taken
+	sent   int
+	taken  int
+	closed bool
 }
 
 type wgState struct {
@@ -205,6 +224,7 @@ type Sim struct {
 	lastRan  int
 	wgs      map[unsafe.Pointer]*wgState
 	mus      map[unsafe.Pointer]*muState
+	chans    map[unsafe.Pointer]*chanState
 	maxG     int
 }
 
@@ -234,6 +254,7 @@ func Run(ch *Chooser, cfg Config, top func(*Sim)) Outcome {
 		probes: map[string]int{},
 		wgs:    map[unsafe.Pointer]*wgState{},
 		mus:    map[unsafe.Pointer]*muState{},
+		chans:  map[unsafe.Pointer]*chanState{},
 		fp:     1469598103934665603,
 	}
 	g0 := &gor{id: 0, state: gRunning, begun: true}
@@ -243,10 +264,13 @@ func Run(ch *Chooser, cfg Config, top func(*Sim)) Outcome {
 	s.maxG = 1
 	s.victim = -1
 	if cfg.Policy == PolStarve {
-		s.victim = 1 + ch.Draw("victim", 8)
+		s.victim = ch.Draw("victim", 9) // 0 starves the caller itself
 	}
 	if cfg.Policy == PolPCT {
 		g0.prio = 1000
+		if ch.Draw("pct-caller-low", 4) == 0 {
+			g0.prio = 0
+		}
 		for i := 0; i < cfg.PCTDepth; i++ {
 			s.pctAt = append(s.pctAt, 1+ch.Draw("pct-at", cfg.PCTHorizon))
 		}
@@ -387,8 +411,43 @@ func (s *Sim) mu(p unsafe.Pointer) *muState {
 	return m
 }
 
+func (s *Sim) chanOf(p unsafe.Pointer, capacity int) *chanState {
+	c := s.chans[p]
+	if c == nil {
+		c = &chanState{cap: capacity}
+		s.chans[p] = c
+	}
+	return c
+}
+
+func (s *Sim) parkedReceivers(p unsafe.Pointer) int {
+	n := 0
+	for _, x := range s.gs {
+		if x.state == gWaitRecv && x.obj == p {
+			n++
+		}
+	}
+	return n
+}
+
 func (s *Sim) eligible(g *gor) bool {
 	switch g.state {
+	case gWaitSend:
+		c := s.chanOf(g.obj, 0)
+		if c.closed {
+			return true // wakes up to panic
+		}
+		if c.cap > 0 {
+			return c.n < c.cap
+		}
+		return s.parkedReceivers(g.obj) > c.n
+	case gWaitTaken:
+		return s.chanOf(g.obj, 0).taken > g.seq
+	case gWaitRecv:
+		c := s.chanOf(g.obj, 0)
+		return c.n > 0 || c.closed
+	case gWaitForever:
+		return false
 	case gReady:
 		return true
 	case gWaitWG:
@@ -421,7 +480,7 @@ func (s *Sim) finish(kind OutcomeKind, r *req, pg int) {
 	}
 	if kind == OutDeadlock || kind == OutStepCap {
 		for _, g := range s.gs {
-			what := [...]string{"ready", "WaitGroup.Wait", "Mutex.Lock", "RWMutex.RLock", "running"}[g.state]
+			what := [...]string{"ready", "WaitGroup.Wait", "Mutex.Lock", "RWMutex.RLock", "running", "chan send", "chan send (unbuffered, waiting for the receiver)", "chan receive", "nil channel"}[g.state]
 			out.Blocked = append(out.Blocked, fmt.Sprintf("g%d:%s", g.id, what))
 		}
 	}
@@ -554,6 +613,46 @@ func (s *Sim) loop() {
 			}
 			m.readers--
 			g.state, g.wake = gReady, r.reply
+		case kSend:
+			c := s.chanOf(r.obj, r.n)
+			if c.closed {
+				r.reply <- reply{panic: "send on closed channel"}
+				continue
+			}
+			g.state, g.obj, g.wake = gWaitSend, r.obj, r.reply
+			if !s.eligible(g) {
+				s.probes["chan-send-parked"]++
+				soft = false
+			}
+		case kSendWait:
+			g.state, g.obj, g.wake = gWaitTaken, r.obj, r.reply
+			soft = false
+		case kRecv:
+			c := s.chanOf(r.obj, r.n)
+			g.state, g.obj, g.wake = gWaitRecv, r.obj, r.reply
+			if c.n == 0 && !c.closed {
+				s.probes["chan-recv-parked"]++
+				soft = false
+			}
+		case kClose:
+			c := s.chanOf(r.obj, 0)
+			if c.closed {
+				r.reply <- reply{panic: "close of closed channel"}
+				continue
+			}
+			c.closed = true
+			g.state, g.wake = gReady, r.reply
+		case kChanLen:
+			c := s.chanOf(r.obj, 0)
+			n := c.n
+			if c.cap == 0 {
+				n = 0
+			}
+			r.reply <- reply{v: n}
+			continue
+		case kChanNil:
+			g.state, g.wake = gWaitForever, r.reply
+			soft = false
 		case kExit:
 			s.remove(g)
 			g = nil
@@ -581,16 +680,34 @@ func (s *Sim) loop() {
 		if next != g {
 			s.switches++
 		}
+		rep := reply{}
 		switch next.state {
 		case gWaitLock:
 			s.mu(next.obj).locked = true
 		case gWaitRLock:
 			s.mu(next.obj).readers++
+		case gWaitSend:
+			c := s.chanOf(next.obj, 0)
+			if c.closed {
+				rep.panic = "send on closed channel"
+			} else {
+				c.n++
+				next.seq = c.sent
+				c.sent++
+				rep.v = next.seq
+			}
+		case gWaitRecv:
+			c := s.chanOf(next.obj, 0)
+			if c.n > 0 {
+				c.n--
+				c.taken++
+				rep.v = 1
+			}
 		}
 		next.state, next.begun = gRunning, true
 		s.running = next
 		s.lastRan = next.id
-		next.wake <- reply{}
+		next.wake <- rep
 	}
 }
 
